@@ -11,7 +11,6 @@ def inventory : List Entry := [
   ⟨"BSpline::operator()::Bum", .localStatic, true, .onceInit, []⟩,
   ⟨"MinimizeOptions::strat", .pointerMember, false, .perObject, ["minimize"]⟩,
   ⟨"ad_sparse_pattern", .varTemplate, false, .readOnlyAfterInit, []⟩,
-  ⟨"d2_exp_dense_workspace", .varTemplate, false, .readOnlyAfterInit, []⟩,
   ⟨"d2_exp_sparse_pattern", .varTemplate, false, .readOnlyAfterInit, []⟩,
   ⟨"d_exp_sparse_pattern", .varTemplate, false, .readOnlyAfterInit, []⟩,
   ⟨"detail::fit_bspline_objective::M", .classStatic, true, .readOnlyAfterInit, []⟩,
